@@ -31,7 +31,9 @@ pub struct ConnPlan {
     pub pipeline: bool,
     pub reqs: Vec<ReqPlan>,
     pub gap_ms: u64,
-    /// "normal" | "reset_after_send"
+    /// "normal" | "reset_after_send" | "reset_after_send:<ms>:<yields>" | "fin_after_send:<ms>:<yields>" - the client goes away
+    /// (abortive reset, or orderly close without reading) <ms> simulated milliseconds plus <yields> scheduler turns
+    /// after its request bytes were written, i.e. at an arbitrary point of the proxy's handling of that request
     pub close: String,
     pub protocol: u32,
     /// attribution record written by the harness right after connect, before the agent can look it up:
@@ -147,8 +149,8 @@ pub async fn run_conn(p: ConnPlan) -> ConnResult {
             out.results.push(ReqResult { tok: r.tok.clone(), sent: sent.is_ok(), t_sent_ns: t, wall_sent_ns: wall_t, err: sent.as_ref().err().map(|e| e.to_string()), ..Default::default() });
         }
         if sent.is_ok() {
-            if p.close == "reset_after_send" {
-                rd.s.reset();
+            if p.close != "normal" {
+                go_away(&mut rd, &p.close).await;
             } else {
                 for (i, r) in p.reqs.iter().enumerate() {
                     match read_resp(&mut rd, r.method == "HEAD").await {
@@ -177,8 +179,8 @@ pub async fn run_conn(p: ConnPlan) -> ConnResult {
                     break;
                 }
             }
-            if p.close == "reset_after_send" {
-                rd.s.reset();
+            if p.close != "normal" {
+                go_away(&mut rd, &p.close).await;
                 out.results.push(rr);
                 break;
             }
@@ -219,6 +221,24 @@ async fn read_resp(rd: &mut Reader<vrt::net::TcpStream>, head: bool) -> Result<M
 }
 
 // ---- plan (JSON) <-> structs -------------------------------------------------------------------
+async fn go_away(rd: &mut Reader<vrt::net::TcpStream>, how: &str) {
+    let mut it = how.split(':');
+    let kind = it.next().unwrap_or("");
+    let ms: u64 = it.next().and_then(|x| x.parse().ok()).unwrap_or(0);
+    let yields: u64 = it.next().and_then(|x| x.parse().ok()).unwrap_or(0);
+    if ms > 0 {
+        tokio::time::sleep(Duration::from_millis(ms)).await;
+    }
+    for _ in 0..yields {
+        tokio::task::yield_now().await;
+    }
+    if kind.starts_with("fin") {
+        let _ = rd.s.shutdown().await;
+    } else {
+        rd.s.reset();
+    }
+}
+
 pub fn req_from_json(v: &Value) -> ReqPlan {
     let headers = v["headers"].as_array().map(|a| a.iter().map(|h| (h[0].as_str().unwrap_or("").to_string(), str_to_bytes(h[1].as_str().unwrap_or("")))).collect()).unwrap_or_default();
     let has_body = !v["body"].is_null();
